@@ -10,6 +10,9 @@
     the teardown log of the extended model for the observed start order, and the model's "main process dies" flag must
     equal the implementation's.
     Cases with delayed-created tasks (@create_after): (K) skipped (not expressible in M1), (P) evaluated.
+    Runs stopped by an action raising SystemExit / KeyboardInterrupt (oracle `abort`, serial and thread runner): (K)
+    skipped (k_skipped:abort_not_in_M1), (P) evaluated -- the teardowns of the started tasks are required although no
+    task failure was reported and whether or not `complete` is reported.
 (P) the statement itself on the implementation's observations: Lean monitors C11_lazy / C11_setup_before /
     C11_td_exact / C11_td_after (driver, request kind "c11"), cross-checked by Python reference monitors below.
 """
@@ -69,7 +72,11 @@ META = {
             'serial / thread / process k=1..3 (teardown monitors only; K skipped: delayed creation is not in M1); tasks with '
             'equal explicit `setup` get ONE list object in the namespace, and a structured family has several tasks '
             'sharing a setup list with a getargs task, selections without the getargs task; another one a task with '
-            'calc_deps + task_deps + setup-tasks (woken several times before it is stepped again); exhaustive tier: every DAG on <=3 tasks with task_dep/setup edges x every completion '
+            'calc_deps + task_deps + setup-tasks (woken several times before it is stepped again); oracle `abort` (~12% of '
+            'the serial / thread cases, one task): the task\'s python-action ends with raise SystemExit / KeyboardInterrupt '
+            '(sys.exit() / Ctrl-C inside an action; leaves run_tasks, thread runner: forwarded by the worker and re-raised '
+            'by the main thread) -- the teardown statement is then evaluated whether or not the implementation reports '
+            '`complete` (monitors only, counters c11:abort:*, k_skipped:abort_not_in_M1); exhaustive tier: every DAG on <=3 tasks with task_dep/setup edges x every completion '
             'order with 2 worker threads (thorough: <=4 tasks); non-trivial = a setup edge or a teardown task in the case and at least one task '
             'reported; distinct = distinct rendered case + schedule',
     'assumptions': ['actions touch only their own targets (granularity assumption of M1 for thread mode)',
@@ -100,6 +107,24 @@ def _make_td(rec, n, fail, who):
             return False
     teardown.__name__ = 'td_%d' % n
     return teardown
+
+
+ABORTS = {'SystemExit': SystemExit, 'KeyboardInterrupt': KeyboardInterrupt}
+
+
+def _make_abort(rec, n, first, kind):
+    """first python-action of a task whose oracle says `abort`: the generated action (start event, checkpoint, targets,
+    end event) and then an exception that is NOT an `Exception`: a script-style sys.exit('fatal ...') / a Ctrl-C that
+    arrives inside the action.  PythonAction lets it through, it leaves Runner.run_tasks (thread runner: forwarded by the
+    worker as {'exit': ...} and raised again by the main thread): the run is stopped by this task."""
+    def action():
+        first()
+        rec.ev(['abort', n, kind])
+        if kind == 'SystemExit':
+            raise SystemExit('task %d: fatal error, giving up' % n)
+        raise ABORTS[kind]()
+    action.__name__ = first.__name__
+    return action
 
 
 def _build_namespace(case, rec):
@@ -143,6 +168,8 @@ def _build_namespace(case, rec):
                 d['teardown'] = [_make_td(rec, n, tasks[n].get('td_fail'), who)]
             if d.get('setup'):
                 d['setup'] = shared.setdefault(tuple(d['setup']), d['setup'])
+            if n is not None and tasks[n].get('abort') and d.get('actions'):
+                d['actions'] = [_make_abort(rec, n, d['actions'][0], tasks[n]['abort'])] + list(d['actions'][1:])
             yield d
     ns['task_gen'] = task_gen
     cfg = dict(ns['DOIT_CONFIG'])
@@ -195,7 +222,11 @@ def mixed_of(case, obs):
 
 
 def td_applicable(case, obs):
-    """the teardown half speaks about runs that reach finish(): normally or stopped by a task failure"""
+    """the teardown half speaks about runs that reach finish(): normally or stopped by a task failure -- or stopped by a
+    task whose action left the runner as SystemExit / KeyboardInterrupt (oracle `abort`): the statement then does NOT
+    wait for the implementation to say 'complete' (a run_all that forgets finish() on that path says nothing at all)"""
+    if abort_fired(obs):
+        return True
     if not any(e[0] == 'complete' for e in obs['trace']) and obs['err'] is None:
         return False
     if obs['err'] is None:
@@ -206,6 +237,10 @@ def td_applicable(case, obs):
     # (F-C11b: the worker's teardown loop raised and took the run with it)
     return case['runner'] == 'process' and str(obs['err']).startswith('crash') and \
         any(t.get('td_fail') for t in case['tasks'])
+
+
+def abort_fired(obs):
+    return any(e[0] == 'abort' for e in obs.get('raw') or [])
 
 
 def start_order(case, mixed, worker=None):
@@ -390,7 +425,26 @@ def ask(triples):
     return list(zip(base, mine))
 
 
-SIGNATURES = {}
+def sig_process_abort_no_teardown(witness):
+    """F-C11c: process runner, the run was stopped by an action raising SystemExit / KeyboardInterrupt (the `abort` task
+    started), and the only thing wrong is that teardowns of started tasks are MISSING (observed is a sub-sequence of the
+    required per-worker log; nothing extra, nothing out of order, nothing twice)"""
+    case = witness.get('case') or {}
+    if case.get('runner') != 'process' or witness.get('failed_monitors') != ['C11_td_exact']:
+        return False
+    ab = [i for i, t in enumerate(case.get('tasks') or []) if t.get('abort')]
+    mixed = witness.get('mixed') or []
+    if len(ab) != 1 or not any(e[0] == 'start' and e[1] == ab[0] for e in mixed):
+        return False
+    for w in range(case['nproc']):
+        got = [e for e in mixed if e[0] in ('td', 'tderr') and e[2] == w]
+        it = iter(teardown_run(case, w, start_order(case, mixed, w)))
+        if not all(any(x == g for x in it) for g in got):
+            return False
+    return not any(e[0] in ('td', 'tderr') and not (0 <= e[2] < case['nproc']) for e in mixed)
+
+
+SIGNATURES = {'process-abort-no-teardown': sig_process_abort_no_teardown}
 
 
 # ======================================================================================================
@@ -403,13 +457,18 @@ KNOBS = {'n_min': 3, 'n_max': 8, 'p_teardown': 0.6, 'p_utd': 0.24, 'p_ignored': 
                      'getargs_setup': 6}}
 
 
-def decorate(case, rng, p_td_fail=0.25):
+def decorate(case, rng, p_td_fail=0.25, p_abort=0.0):
     case['c11'] = True
     for t in case['tasks']:
         if t['kind'] == 'group':
             continue
         if t['teardown'] and rng.random() < p_td_fail:
             t['td_fail'] = rng.choice([True, True, 'raise'])
+    # drawn after everything else: the cases without `abort` are the ones generated before this oracle existed
+    if p_abort and rng.random() < p_abort:
+        cand = [t for t in case['tasks'] if t['kind'] != 'group' and not t['ignored'] and t['status'] == 'run'] or \
+            [t for t in case['tasks'] if t['kind'] != 'group']
+        rng.choice(cand)['abort'] = rng.choice(['SystemExit', 'SystemExit', 'KeyboardInterrupt'])
     return case
 
 
@@ -418,10 +477,11 @@ def gen_case(seed, knobs):
     knobs = dict(knobs)
     pol = knobs.pop('gen_policy', False)
     p_td_fail = knobs.pop('p_td_fail', 0.25)
+    p_abort = knobs.pop('p_abort', 0.0)
     c = runlib.gen_case(rng, **knobs)
     if pol and c['runner'] == 'thread':
         c['policy'] = runlib.gen_policy(rng, c['nproc'])
-    decorate(c, rng, p_td_fail)
+    decorate(c, rng, p_td_fail, p_abort)
     c['seed'] = seed
     return c
 
@@ -470,7 +530,7 @@ def gen_shared_setup(seed, knobs):
             'family': 'shared_setup_list', 'seed': seed}
     assert set(names) >= set(sel or [])
     case['model'] = runlib.expand(case)
-    decorate(case, rng, 0.15)
+    decorate(case, rng, 0.15, 0.1)
     return case
 
 
@@ -512,7 +572,7 @@ def gen_calc_task_setup(seed, knobs):
             'policy': runlib.gen_policy(rng, 3) if runner == 'thread' else {'kind': 'seeded', 'seed': rng.randrange(1 << 30)},
             'family': 'calc_task_setup', 'seed': seed}
     case['model'] = runlib.expand(case)
-    decorate(case, rng, 0.1)
+    decorate(case, rng, 0.1, 0.1)
     return case
 
 
@@ -572,6 +632,22 @@ def count_case(st, case, obs, mixed):
         st.count('c11:td_entities:%d' % len(set(e[2] for e in mixed if e[0] == 'td')))
     if any(e[0] == 'failure' for e in obs['trace']) and not case.get('cont') and ntd:
         st.count('c11:teardown_after_stop_on_failure')
+    ab = [t['abort'] for t in case['tasks'] if t.get('abort')]
+    if ab:
+        st.count('c11:abort:cases')
+        if abort_fired(obs):
+            st.count('c11:abort:fired')
+            st.count('c11:abort:fired:%s:%s' % (case['runner'], ab[0]))
+            an = [e[1] for e in obs['raw'] if e[0] == 'abort'][0]
+            before = start_order(case, mixed)
+            st.count('c11:abort:started_teardown_tasks_at_stop:%s' % (len(before) if len(before) < 3 else '3+'))
+            if [n for n in before if n != an]:
+                st.count('c11:abort:fired_after_other_teardown_task_started')
+            if case['runner'] == 'thread' and any(
+                    e[0] == 'start' and not any(f[0] == 'end' and f[1] == e[1] for f in mixed) for e in mixed):
+                st.count('c11:abort:thread_other_action_in_flight')
+            if ntd:
+                st.count('c11:abort:teardowns_ran_after_abort')
 
 
 # ======================================================================================================
@@ -910,6 +986,8 @@ def render(case):
     for i, t in enumerate(case['tasks']):
         if t.get('td_fail'):
             lines[i] += '   [teardown FAILS (%s)]' % ('raises' if t['td_fail'] == 'raise' else 'returns False')
+        if t.get('abort'):
+            lines[i] += '   [its action ends with `raise %s` (sys.exit / Ctrl-C inside the action): the run stops here]' % t['abort']
     return '\n'.join(lines)
 
 
@@ -985,6 +1063,11 @@ def judge(case, obs, mixed, base_ans, ans, st, shrink_left):
                           'python and Lean monitors disagree on %s' % disagree)
             return used
     # (K1) base model accepts the trace
+    if abort_fired(obs):
+        # a run stopped by SystemExit / KeyboardInterrupt out of an action is not a behaviour of M1 (no such transition):
+        # monitors only (Lean + Python) for these runs
+        st.count('k_skipped:abort_not_in_M1')
+        return used
     if case.get('c11d'):
         st.count('k_skipped:delayed_creation_not_in_M1')
     elif base_ans is None or 'error' in base_ans:
@@ -1093,7 +1176,8 @@ def small_cases(max_n=3):
         if not any(t['setup'] for t in d['tasks']):
             continue
         for i in range(n):
-            for key, val in (('status', 'utd'), ('outcome', 'failed'), ('ignored', True), ('td_fail', True)):
+            for key, val in (('status', 'utd'), ('outcome', 'failed'), ('ignored', True), ('td_fail', True),
+                             ('abort', 'SystemExit'), ('abort', 'KeyboardInterrupt')):
                 c = json.loads(json.dumps(d))
                 c['tasks'][i][key] = val
                 c['runner'], c['nproc'] = 'serial', 0
@@ -1111,9 +1195,9 @@ def plan(ctx, scale=1.0):
     rng = ctx.rng
     gen = []
     for _ in range(n_serial):
-        gen.append((rng.randrange(1 << 60), dict(KNOBS, runner='serial')))
+        gen.append((rng.randrange(1 << 60), dict(KNOBS, runner='serial', p_abort=0.12)))
     for _ in range(n_thread):
-        gen.append((rng.randrange(1 << 60), dict(KNOBS, runner='thread', gen_policy=True)))
+        gen.append((rng.randrange(1 << 60), dict(KNOBS, runner='thread', gen_policy=True, p_abort=0.12)))
     for _ in range(int((40 if quick else 600) * ctx.boost * scale)):
         gen.append((rng.randrange(1 << 60), {'delayed': True, 'runner': rng.choice(['serial', 'thread'])}))
     for _ in range(int((60 if quick else 800) * ctx.boost * scale)):
@@ -1123,7 +1207,7 @@ def plan(ctx, scale=1.0):
     rng.shuffle(gen)
     size = 20 if quick else 60
     pool = [{'gen': gen[i:i + size], 'shrink_s': 12.0} for i in range(0, len(gen), size)]
-    procs = [(rng.randrange(1 << 60), dict(KNOBS, runner='process', n_max=6, p_td_fail=0.25)) for _ in range(n_proc)]
+    procs = [(rng.randrange(1 << 60), dict(KNOBS, runner='process', n_max=6, p_td_fail=0.25, p_abort=0.2)) for _ in range(n_proc)]
     # tasks created at run time travel to the worker processes as whole pickled Task objects (JobTask)
     n_dproc = int((12 if quick else 100) * min(ctx.boost, 2) * scale)
     procs += [(rng.randrange(1 << 60), {'delayed': True, 'runner': 'process'}) for _ in range(n_dproc)]
@@ -1218,9 +1302,10 @@ def replay(ctx, data):
         print('FAILED monitors:', bad)
         return False
     print('base model accepts the trace:', 'not applicable (delayed creation is not in M1)' if case.get('c11d') else
+          'not applicable (a run stopped by SystemExit / KeyboardInterrupt is not in M1)' if abort_fired(obs) else
           ba.get('accepted') if isinstance(ba, dict) else ba)
     if lean is not None:
         print('extended model teardown log:', a.get('model_td'), ' main dies:', a.get('model_crash'))
-    if data.get('failed') == 'correspondence' and not case.get('c11d') and isinstance(ba, dict) and not ba.get('accepted') and not ba.get('skipped'):
+    if data.get('failed') == 'correspondence' and not case.get('c11d') and not abort_fired(obs) and isinstance(ba, dict) and not ba.get('accepted') and not ba.get('skipped'):
         return False
     return True
